@@ -62,8 +62,9 @@ def run(ctx):
             c = r.choice(cols)
             f = rec[:-len(eol)].split("\t")
             bad = r.choice(["x", "1x", "x1", "12a3", "abc", "1 2", " 120", ".5", "#70", "1.5x", "12-3", "5 ", "--5", "-", "+", "!", "/7", ",3", "(4)", "*"])
-            if (fmt.name, c) in (("bdg", 3), ("narrowpeak", 6)) and bad == ".5":
-                bad = ".5."       # '.5' is a float
+            if (fmt.name, c) in (("bdg", 3), ("narrowpeak", 6)):
+                # float columns: '.5' is a float; malformed floats have their own shapes
+                bad = r.choice([bad if bad != ".5" else ".5.", ".5.", "1..5", "1.2.3", "..", ".e1", "1e5e3", "1e", "e5", "1e+", "1.5e2.5", "1e1.5", "--1", "1.5-", "1.-5", "1,5", "0x1p3", "1_0"])
             f[c] = bad
             raws[pos] = "\t".join(f) + eol
             line = pos
@@ -172,7 +173,7 @@ def run(ctx):
                     ctx.judged("line-number-invariant:" + cls, (data, cls, pos, "inv"))
 
     fmts = ["fasta2", "fastq", "bed3", "bed6", "bdg", "narrowpeak", "sam", "vcf"]
-    for i in range(ctx.share(ctx.pick(6 * len(fmts), 80 * len(fmts)))):
+    for i in range(ctx.share(ctx.pick(30 * len(fmts), 300 * len(fmts)))):
         ctx.run_case(one, {"fmt": fmts[i % len(fmts)], "seed": rng.randrange(2 ** 40)})
     ctx.sample({"format": "fastq", "class": "plus", "record": 1, "data": "@a\nAC\n+\n!!\n@b\nG\nx\n#\n", "expected": "every configuration raises; FormatException.line_number in 4..7 and equal everywhere"})
     ctx.floor("format_exceptions", ctx.pick(300, 5000))
